@@ -48,7 +48,7 @@ except ImportError:
     # Python < 3.3
     ipaddress = None
 
-from .. import (conf, drivers, log, utils, world)
+from .. import (conf, drivers, ircmsgs, log, utils, world)
 from ..utils import minisix
 from ..utils.str import decode_raw_line
 
@@ -210,7 +210,13 @@ class SocketDriver(drivers.IrcDriver, drivers.ServersMixin):
             for line in lines:
                 line = decode_raw_line(line)
 
-                msg = drivers.parseMsg(line)
+                try:
+                    msg = drivers.parseMsg(line)
+                except ircmsgs.MalformedIrcMsg:
+                    # Don't let a single bogus line kill the connection.
+                    drivers.log.warning('Ignoring malformed message: %r',
+                                        line)
+                    continue
                 if msg is not None and self.irc is not None:
                     self.irc.feedMsg(msg)
         except socket.timeout:
